@@ -9,7 +9,7 @@ reg = importlib.util.module_from_spec(spec); spec.loader.exec_module(reg)
 props = [json.loads(l)['id'] for l in open(os.path.join(os.path.dirname(os.path.abspath(__file__)), 'properties.jsonl'))]
 checks = []
 for pid in props:
-    if pid not in reg.PROPS:
+    if pid not in reg.PROPS or pid not in reg.CLAIMED:
         continue
     P = reg.PROPS[pid]
     checks.append(dict(
@@ -17,7 +17,7 @@ for pid in props:
         evidence_file=f'evidence/{pid}.json', replay_cmd_template='./verif replay {path}', engine='dsim',
         level_claimed=dict(category=P['level'], text=P.get('level_text', ''), design_ref=P.get('design_ref', f'DESIGN.md section 5 {pid}')),
         level_note=P.get('level_note', ''), technique=P.get('technique', 'deterministic simulation with fault injection: seeded search over schedules and fault sequences against a reference model')))
-na = [dict(property_id=pid, reason=reg.NOT_APPLICABLE.get(pid, 'check not built yet in this session; see DESIGN.md section 11 build order')) for pid in props if pid not in reg.PROPS]
+na = [dict(property_id=pid, reason=reg.NOT_APPLICABLE.get(pid, 'check not built yet in this session; see DESIGN.md section 11 build order')) for pid in props if pid not in reg.PROPS or pid not in reg.CLAIMED]
 m = dict(version=1, setup_cmd='./verif setup',
          hooks=dict(guard='DAWGIE_VERIF', enable='n/a - no source hooks: every seam is a monkeypatch applied by the harness to the imported tree',
                     baseline_off_cmd='cd /repo && /venv/bin/python -m pytest -ra -q -p no:cacheprovider --timeout=900 --continue-on-collection-errors',
